@@ -258,6 +258,12 @@ func genProduce(prop string, seed uint64) *Plan {
 			k["meta_min_ms"] = g.pick(10, 100)
 		}
 	case "C03":
+		if g.pct(40) {
+			// promises that take simulated time: a record holds its slot
+			// until its promise has returned
+			k["prom_sleep_pct"] = g.pick(10, 30, 60)
+			k["prom_sleep_us_max"] = g.pick(2000, 20000, 200000)
+		}
 		k["max_buf_recs"] = g.pick(1, 1, 2, 3, 5)
 		if g.pct(40) {
 			k["max_buf_bytes"] = g.pick(64, 200, 1000)
